@@ -616,6 +616,13 @@ PROPS["C04"] = dict(
 )
 
 # --------------------------------------------------------------------------- C05
+_C05_LIM = dict(_GROW0)
+_C05_LIM.update({
+    # at most one object on these heaps: sweeping / clearing loops need two iterations
+    r"vm::runtime::RuntimeData::clear_objects$#*": 2,
+    r"vm::runtime::RuntimeData::gc$#*": 3,
+    r"<std::vec::IntoIter<std::ptr::NonNull<.*CaoLangObject>> as std::iter::Iterator>::": 2,
+})
 PROPS["C05"] = dict(
     functions=[
         "CaoLangAllocator::{new,alloc,dealloc}; RuntimeData::{new,init_function,init_string,init_table,init_closure,"
@@ -643,20 +650,20 @@ PROPS["C05"] = dict(
         H("c05", "c05_alloc_step_72_8", bounds="alloc(72, 8)"),
         H("c05", "c05_alloc_step_1_1", "thorough", bounds="alloc(1, 1)"),
         H("c05", "c05_alloc_step_4096_16", "thorough", bounds="alloc(4096, 16)"),
-        H("c05", "c05_ledger_function_95", bounds="init_function with limit 95 (one byte short): fails, nothing accounted", limits=_GROW0),
-        H("c05", "c05_ledger_function_96", "thorough", bounds="init_function with limit 96: succeeds, clear() returns to zero", limits=_GROW0),
-        H("c05", "c05_ledger_string_100", bounds="init_string: header fits, buffer does not (limit 100)", limits=_GROW0),
-        H("c05", "c05_ledger_string_115", "thorough", bounds="init_string: one byte short (limit 115)", limits=_GROW0),
-        H("c05", "c05_ledger_string_116", bounds="init_string: fits exactly (limit 116)", limits=_GROW0),
-        H("c05", "c05_ledger_empty_string_200", bounds="init_string(\"\") (zero-length buffer), clear() returns to zero", limits=_GROW0),
-        H("c05", "c05_ledger_empty_string_98", "thorough", bounds="init_string(\"\"): header fits, the 4-byte buffer charge does not (limit 98)", limits=_GROW0),
-        H("c05", "c05_ledger_table_100", bounds="init_table: header fits, bucket storage does not (limit 100)", limits=_GROW0),
-        H("c05", "c05_ledger_table_423", "thorough", bounds="init_table: one byte short (limit 423)", limits=_GROW0),
-        H("c05", "c05_ledger_table_424", "thorough", bounds="init_table: fits exactly (limit 424)", limits=_GROW0),
-        H("c05", "c05_ledger_closure_96", "thorough", bounds="init_closure with limit 96", limits=_GROW0),
-        H("c05", "c05_ledger_upvalue_95", "thorough", bounds="init_upvalue with limit 95", limits=_GROW0),
-        H("c05", "c05_collect_unrooted", bounds="gc() reclaims an unreachable function object", limits=_GROW0),
-        H("c05", "c05_collect_rooted", bounds="gc() keeps a function object on the value stack", limits=_GROW0),
+        H("c05", "c05_ledger_function_95", bounds="init_function with limit 95 (one byte short): fails, nothing accounted", limits=_C05_LIM),
+        H("c05", "c05_ledger_function_96", "thorough", bounds="init_function with limit 96: succeeds, clear() returns to zero", limits=_C05_LIM),
+        H("c05", "c05_ledger_string_100", bounds="init_string: header fits, buffer does not (limit 100)", limits=_C05_LIM),
+        H("c05", "c05_ledger_string_115", "thorough", bounds="init_string: one byte short (limit 115)", limits=_C05_LIM),
+        H("c05", "c05_ledger_string_116", bounds="init_string: fits exactly (limit 116)", limits=_C05_LIM),
+        H("c05", "c05_ledger_empty_string_200", bounds="init_string(\"\") (zero-length buffer), clear() returns to zero", limits=_C05_LIM),
+        H("c05", "c05_ledger_empty_string_98", "thorough", bounds="init_string(\"\"): header fits, the 4-byte buffer charge does not (limit 98)", limits=_C05_LIM),
+        H("c05", "c05_ledger_table_100", bounds="init_table: header fits, bucket storage does not (limit 100)", limits=_C05_LIM),
+        H("c05", "c05_ledger_table_423", "thorough", bounds="init_table: one byte short (limit 423)", limits=_C05_LIM),
+        H("c05", "c05_ledger_table_424", "thorough", bounds="init_table: fits exactly (limit 424)", limits=_C05_LIM),
+        H("c05", "c05_ledger_closure_96", "thorough", bounds="init_closure with limit 96", limits=_C05_LIM),
+        H("c05", "c05_ledger_upvalue_95", "thorough", bounds="init_upvalue with limit 95", limits=_C05_LIM),
+        H("c05", "c05_collect_unrooted", bounds="gc() reclaims an unreachable function object", limits=_C05_LIM),
+        H("c05", "c05_collect_rooted", bounds="gc() keeps a function object on the value stack", limits=_C05_LIM),
     ],
 )
 
